@@ -23,7 +23,7 @@ from jade.models.hpc import SlurmConfig
 from .nspec import check_call
 
 GLOBALS = {}
-WALLTIMES = ["00:30:00", "01:00:00", "24:00:00"]      # HH:MM:SS, the documented form (D-HH:MM:SS loses its days in _to_timedelta: noted in DESIGN.md)
+WALLTIMES = ["00:30:00", "01:00:00", "24:00:00", "1-00:00:00", "2-12:00:00"]      # HH:MM:SS and the SLURM form with days
 WORDS = ["echo hi", "python run.py --x 1", "bash -c 'a b'", "true", "sleep 1; echo \"q\"", "cmd --opt=é"]
 
 
@@ -233,7 +233,24 @@ def cases_add_job(tier, rng):
         yield {"seed": rng.randint(0, 10**9), "n": rng.randint(1, 5)}
 
 
+
+def run_walltime(S, case):
+    """SubmitterParams.get_wall_time on SLURM walltime strings (HH:MM:SS and D-HH:MM:SS): the parsed duration is the duration written."""
+    from jade.models.submitter_params import _to_timedelta
+    d, h, m, sec = case["d"], case["h"], case["m"], case["s"]
+    text = (f"{d}-" if case["with_days"] else "") + f"{h:02d}:{m:02d}:{sec:02d}"
+    want = ((d if case["with_days"] else 0) * 24 + h) * 3600 + m * 60 + sec
+    got = _to_timedelta(text).total_seconds()
+    ok = got == want
+    return {"pre_ok": True, "ok": ok, "failed": [] if ok else [f"walltime {text!r} parsed as {got} s, it is {want} s"]}
+
+
+def cases_walltime(tier, rng):
+    for i in range(60 if tier == "quick" else 600):
+        yield {"d": rng.randint(0, 9), "h": rng.randint(0, 47), "m": rng.randint(0, 59), "s": rng.randint(0, 59), "with_days": bool(i & 1)}
+
 HARNESSES = {
+    "_to_timedelta": (cases_walltime, run_walltime),
     "JobSubmitter.run_checks": (cases_config, run_config),
     "JobContainerByName.add_job": (cases_add_job, run_add_job),
 }
